@@ -219,6 +219,8 @@ def verify_function(model, contract, timeout_ms=10000, body_override=None, extra
         fdef, h = find_def(rel, qual)
     else:
         fdef, h = body_override
+    from .smt import set_fresh_scope
+    set_fresh_scope(contract.qualname)
     ex = Executor(model)
     ex.fname = contract.qualname
     ex.contract = contract
